@@ -77,6 +77,9 @@ func (lr *ledgerRun) loop(strictProp string, before func(rr *scen.RoundResult) b
 			return
 		}
 		lr.l.WriteCert(lr.nodes, rr, cert)
+		if lr.l.Mix.Contracts > 0 {
+			lr.s.NoteContracts(lr.nodes[0], rr.Block)
+		}
 		lr.r.State(fmt.Sprintf("%d/%x/%x", rr.Height, lr.nodes[0].App.State.Root().Bytes()[:6], lr.nodes[0].App.IdentityState.Root().Bytes()[:4]))
 		if rr.Flags != 0 {
 			lr.r.Probe(fmt.Sprintf("blockflags:%b", rr.Flags))
